@@ -2,6 +2,7 @@ package main
 
 import (
 	"fmt"
+	"os"
 	"runtime/debug"
 	"sort"
 	"strings"
@@ -271,6 +272,13 @@ func (in *Interp) runPath(h *ssa.Function, res *harnessResult) {
 		}()
 		in.callFn(nil, h, nil, nil)
 	}()
+	if os.Getenv("SYMGO_TRACE") != "" {
+		var ks []string
+		for _, d := range in.trace {
+			ks = append(ks, fmt.Sprintf("%d/%d%s", d.k, d.n, d.name))
+		}
+		fmt.Printf("  path end=%q steps=%d trace=%v\n", end, in.steps, ks)
+	}
 	in.rollback(0, 0)
 	res.Paths++
 	if end != "" {
